@@ -87,6 +87,12 @@ CHECKS['C03'] = ('model_checking',
     'Whole-model claims are selector exploration (numpy/schedula cannot carry symbolic values); file loading path and PYTHONHASHSEED outside. ' + TB,
     'DESIGN.md §3 C03')
 
+CHECKS['C05'] = ('exploration',
+    'CrossHair/z3 path exploration over shape / pool / operator / argument-count selectors; the real fitting and vectorised evaluation run on each path against a position-by-position oracle built from the same functions on scalars',
+    'Bounded exhaustive exploration driven by the symbolic executor: all 256 source x destination shape pairs up to 4x4 are fitted as the statement says (scalar fills, single row / column repeats, surplus dropped, #N/A elsewhere) through Ranges.push and through a Cell result; 10 operators / functions on all broadcastable pairs of 8 operand shapes give, position by position, the scalar result (errors, text, logicals, blanks in the element pool); CONCATENATE gives the same element-wise answer for 9..64 arguments across numpy\'s 32-argument limit.',
+    'Selectors only (numpy does the broadcasting): exploration. Known finding C05-vector-transposed excluded by predicate. ' + TB,
+    'DESIGN.md §3 C05')
+
 NA = {
     'C15': 'the dependency closure is computed over openpyxl worksheets read from .xlsx files while mutating the schedula dispatcher; neither can be given a symbolic state (DESIGN §4)',
     'C16': 'placement is done by openpyxl range iteration zipped with np.ravel and compared by re-reading files: I/O and third-party C code, no encodable kernel (DESIGN §4)',
